@@ -17,12 +17,14 @@ class MemSpec(Spec):
         r = memref.oracle(case, impl)
         if r is None:
             return None
-        # a hit must reproduce on a fresh run of the single case (timeouts and
-        # truncated output under machine load are not findings)
-        key = (case.key(), r[0])
-        if key not in self._confirmed:
-            self._confirmed[key] = self.rerun(case, r[0])
-        return r if self._confirmed[key] else None
+        # hits that can be produced by machine load (time-outs, truncated
+        # output) must reproduce on a fresh run of the single case
+        if r[0].endswith((':timeout', ':no-output', ':garbled')) or r[0].startswith('final:missing'):
+            key = (case.key(), r[0])
+            if key not in self._confirmed:
+                self._confirmed[key] = self.rerun(case, r[0])
+            return r if self._confirmed[key] else None
+        return r
 
     _confirmed = {}
 
